@@ -61,6 +61,9 @@ def pm_configs(t):
     return cfgs
 
 
+SLOW_US = 300000
+
+
 def pm_run(arg):
     """one BFS; a crash kills the worker: the breadcrumb names the culprit, which is recorded and skipped"""
     cfg, flavour, depth, digest, max_runs, budget_s = arg
@@ -74,7 +77,7 @@ def pm_run(arg):
     try:
         for attempt in range(40):
             req = {"op": "pm", "depth": depth, "digest": digest, "max_runs": max_runs, "crumb": crumb, "skip": skip,
-                   "budget_s": budget_s, "run_limit_s": 10 if flavour == "fast" else 30}
+                   "budget_s": budget_s, "run_limit_s": 10 if flavour == "fast" else 30, "slow_us": SLOW_US}
             req.update({k: v for k, v in cfg.items() if k != "name"})
             try:
                 result = w.call(req, timeout=budget_s + 120.0)
@@ -135,6 +138,18 @@ def pm_run(arg):
                            "std::exception" % (v["input"], cfg["name"], v["detail"]),
                            {"op": "block", "text": v["input"], **{k: x for k, x in cfg.items() if k in ("mode", "tpl", "model", "newxta", "part", "builder")}})
         elif kind == "slow":
+            # replay alone, three times, before calling it slow (CPU time; the search itself runs 16 workers in parallel)
+            rq = {"op": "block", "text": v["input"], **{k: x for k, x in cfg.items() if k in ("mode", "tpl", "model", "newxta", "part", "builder")}}
+            best = None
+            for _ in range(3):
+                rr = engine.worker(flavour).call_safe(rq, timeout=60)
+                if rr.get("died"):
+                    best = None
+                    break
+                best = rr.get("us", 0) if best is None else min(best, rr.get("us", 0))
+            if best is not None and best < SLOW_US:
+                part.outcome("slow-only-under-load")
+                continue
             part.outcome("slow")
             part.violation("slow:%s" % cfg["name"].split("#")[0], "`%s` [%s] took %s" % (v["input"], cfg["name"], v["detail"]),
                            {"op": "block", "text": v["input"], **{k: x for k, x in cfg.items() if k in ("mode", "tpl", "model", "newxta", "part", "builder")}})
@@ -361,8 +376,22 @@ def growth_shard(arg):
         part.outcome("ok" if not r.get("exc") else "std-exception")
         times.append((n, len(doc), r.get("us", 0) / 1e6))
     # proportionality: doubling the size must not multiply the time by much more than two (generous constant)
+    def cpu_seconds(n):
+        # best of three, alone: CPU time of the parse as measured inside the worker
+        best = None
+        for _ in range(3):
+            rr = X.run_docs(w, [fam(n)], want=["noinv"], timeout=120, one_timeout=120)[0]
+            if rr.get("died"):
+                return None
+            best = rr.get("us", 0) / 1e6 if best is None else min(best, rr.get("us", 0) / 1e6)
+        return best
+
     for (n1, b1, t1), (n2, b2, t2) in zip(times, times[1:]):
         if t1 > 0.02 and t2 / max(t1, 1e-9) > 4.0 * (b2 / b1):
+            t1, t2 = cpu_seconds(n1), cpu_seconds(n2)
+            if t1 is None or t2 is None or not (t1 > 0.02 and t2 / max(t1, 1e-9) > 4.0 * (b2 / b1)):
+                part.outcome("superlinear-not-reproduced")
+                continue
             part.outcome("superlinear")
             part.violation("superlinear:growth:%s" % name, "family %s: %d bytes take %.2fs, %d bytes take %.2fs (x%.1f time for x%.1f size)" %
                            (name, b1, t1, b2, t2, t2 / t1, b2 / b1), {"family": name, "n": n2})
